@@ -21,6 +21,9 @@ fn class_of(scn: &Scn) -> String {
     if span <= 1.0e-12 * 1.0000001 {
         c.push("span_le_1e-12");
     }
+    if span > 1.0e-12 * 1.0000001 && span < 1.0e-5 {
+        c.push("short_span");
+    }
     if let Some(h) = scn.first_step {
         if h.abs() >= span {
             c.push("first_step_ge_span");
@@ -180,7 +183,7 @@ pub fn check_run(rep: &mut Report, p: &dyn Problem, scn: &Scn, res: &RunRes, cas
 
 pub fn run(ctx: &Ctx) -> (Report, Meta) {
     let meta = Meta::new(
-        "randomised option sweep on bounded problems (oscillators, Lotka-Volterra, pendulum, linear rotation, zero RHS, quadrature): 6 methods x both directions x x0 in {0, O(1), 1e-3, +-1e6} x spans 1e-12..1e8 and infinite xend with a terminal event x first_step {none, tiny, span/3, span, 5 span, wrong sign} x max_step {none, inf, span/4, span/7, 3 span} x max_steps x t_eval x dense_output x events (terminal or not); plus a deterministic adversarial list (steps dividing the interval exactly, first_step == span, spans of 1e-12..1e-9). Every run is a distinct configuration (distinct by hash of the scenario).",
+        "randomised option sweep on bounded problems (oscillators, Lotka-Volterra, pendulum, linear rotation, zero RHS, quadrature): 6 methods x both directions x x0 in {0, O(1), 1e-3, +-1e6} x spans 1e-12..1e8 and infinite xend with a terminal event x first_step {none, tiny, span/3, span, 5 span, wrong sign} x max_step {none, inf, span/4, span/7, 3 span} x max_steps x t_eval x dense_output x events (terminal or not); plus a deterministic adversarial list (steps dividing the interval exactly, first_step == span, spans of 1e-12..1e-9, spans of 1e-12..1e-3 from degenerate starts: zero state, zero derivative, equilibrium). Every run is a distinct configuration (distinct by hash of the scenario).",
     )
     .assume("rounding slack R_t = 4 eps max(|x0|,|xend|) (adaptive) / (nstep+4) eps max(..) (RK4)")
     .assume("configuration errors (Err) are honest refusals, not violations")
@@ -251,6 +254,32 @@ pub fn run(ctx: &Ctx) -> (Report, Meta) {
                     s2.max_step = Some(f64::INFINITY);
                     if m != Method::RK4 {
                         adv.push((p.clone(), s2));
+                    }
+                }
+                // short spans from a degenerate start (zero state, zero derivative, equilibrium): the automatic
+                // initial-step heuristics fall back to fixed trial sizes there, which must still respect the interval
+                for &span in &[1e-12, 1e-10, 1e-9, 1e-8, 1e-7, 3e-7, 9e-7, 1e-6, 1e-5, 1e-4, 1e-3] {
+                    let degenerate: Vec<(crate::problems::Simple, Vec<f64>)> = vec![
+                        (crate::problems::Simple::Osc { d: 0.0, a: 0.5, w: 1.3 }, vec![0.0, 0.0]),
+                        (crate::problems::Simple::Osc { d: 0.1, a: 0.0, w: 1.0 }, vec![0.0, 0.0]),
+                        (crate::problems::Simple::Quad, vec![0.0, 0.0]),
+                        (crate::problems::Simple::Zero { n: 2 }, vec![1.0, -2.0]),
+                        (crate::problems::Simple::Zero { n: 1 }, vec![0.0]),
+                        (crate::problems::Simple::Pend { g: 4.0, d: 0.0 }, vec![0.0, 0.0]),
+                        (crate::problems::Simple::Forced { k: 1.0 }, vec![0.0]),
+                        (crate::problems::Simple::Osc { d: 0.0, a: 0.5, w: 1.3 }, vec![1e-14, -1e-13]),
+                    ];
+                    for (pp, yy) in degenerate {
+                        let s = Scn::new(m, x0, x0 + dir * span, yy);
+                        adv.push((pp.clone(), s.clone()));
+                        if m != Method::RK4 {
+                            let mut s2 = s.clone();
+                            s2.max_step = Some(f64::INFINITY);
+                            adv.push((pp.clone(), s2));
+                            let mut s3 = s.clone();
+                            s3.max_step = Some(3.0 * span);
+                            adv.push((pp, s3));
+                        }
                     }
                 }
             }
